@@ -409,11 +409,7 @@ class Files:
     def __init__(self):
         import rasterio
 
-        # a fixed directory (per verif tree), so that the paths inside a replay file stay meaningful
-        import hashlib
-        self.dir = os.path.join(tempfile.gettempdir(), "c17_" + hashlib.sha1(core.VERIF.encode()).hexdigest()[:10])
-        shutil.rmtree(self.dir, ignore_errors=True)
-        os.makedirs(self.dir)
+        self.dir = tempfile.mkdtemp(prefix="c17_")
         self.rio = rasterio
         self.facts = {}
         r, c = 4, 5
@@ -492,6 +488,25 @@ class Files:
             f = self.fact(s) if s else None
             out.append([jsonwire.wire_str(s)] + ([[f[0], f[1], f[2], 1 if f[3] else 0]] if f else []))
         return out
+
+    def sym(self, v):
+        """replay form: the scratch directory written as <FILES> (it changes from run to run)"""
+        if isinstance(v, str):
+            return v.replace(self.dir, "<FILES>")
+        if isinstance(v, dict):
+            return {k: self.sym(x) for k, x in v.items()}
+        if isinstance(v, list):
+            return [self.sym(x) for x in v]
+        return v
+
+    def unsym(self, v):
+        if isinstance(v, str):
+            return v.replace("<FILES>", self.dir)
+        if isinstance(v, dict):
+            return {k: self.unsym(x) for k, x in v.items()}
+        if isinstance(v, list):
+            return [self.unsym(x) for x in v]
+        return v
 
     def close(self):
         shutil.rmtree(self.dir, ignore_errors=True)
@@ -698,8 +713,9 @@ def run_inputs(ctx, model, files, cases):
             impl = [1, exc_code(exc)]
         ctx.traces += 1
         m = mres[2 * i]
-        replay = {"stream": "input", "case": {"kind": cs["kind"], "what": cs.get("what"), "user": jsonwire.show(before)},
-                  "files": "rasters as written by harness/props/c17.py Files()"}
+        replay = {"stream": "input", "case": {"kind": cs["kind"], "what": cs.get("what"),
+                                              "user": files.sym(jsonwire.show(before))},
+                  "files": "<FILES> = the rasters written by harness/props/c17.py Files() (l.tif r.tif 4x5, g_*.tif grids, ...)"}
         if impl != m:
             ctx.mismatch("check_input_section", replay, impl if impl[0] else [0, jsonwire.show(out)],
                          m if m[0] else [0, jsonwire.show(jsonwire.from_wire(m[1]))])
@@ -828,7 +844,7 @@ def run_main_cases(ctx, files):
         ctx.traces += 1
         ctx.case(("main", name))
         ctx.count("main_cases")
-        replay = {"stream": "main", "case": {"name": name, "input": jsonwire.show(inp)}}
+        replay = {"stream": "main", "case": {"name": name, "input": files.sym(jsonwire.show(inp))}}
         if malformed and (calls or raised is None):
             ctx.violation("malformed_input_reaches_matching", f"pandora.main on a malformed input ({name}) "
                           f"{'called pandora.run' if calls else 'returned without an exception'}", replay)
@@ -860,7 +876,7 @@ def run(ctx):
                 run_datasets(ctx, model, [rp["case"]])
             elif rp["stream"] == "input":
                 run_inputs(ctx, model, files, [{"kind": rp["case"]["kind"], "what": rp["case"].get("what"),
-                                                "user": jsonwire.unshow(rp["case"]["user"])}])
+                                                "user": jsonwire.unshow(files.unsym(rp["case"]["user"]))}])
             else:
                 run_main_cases(ctx, files)
             return
